@@ -1127,8 +1127,8 @@ def expected_anchor(n, edges, P, q):
     """independent oracle: the closest reference atom with >= 2 bonded neighbours (None if not unique within 1e-9)"""
     anchors = H.degree2(n, [tuple(e) for e in edges])
     d = sorted((float(np.linalg.norm(np.array(P[a]) - np.array(q))), a) for a in anchors)
-    if len(d) > 1 and d[1][0] - d[0][0] <= 1e-9 * max(1.0, d[1][0]):
-        return None
+    if len(d) > 1 and d[1][0] - d[0][0] <= 1e-12 * max(1.0, d[1][0]):
+        return None          # an exact tie (to rounding): "the closest" is ambiguous
     return d[0][1]
 
 
@@ -1433,6 +1433,17 @@ def task_numeric_law(prop, tier, seed):
                 continue
             Q = rng.uniform(-2.5, 2.5, size=(m, 3))
             s = float(rng.choice([1.0, 0.5, 2.0, rng.uniform(0.01, 2.0)]))
+            if kind == "generic" and t % 2 == 1:
+                # near-tie: put the first target atom on the bisector plane of two anchors, then nudge it towards the higher-index one
+                anc = H.degree2(n, edges)
+                if len(anc) >= 2:
+                    a1, a2 = sorted(rng.choice(anc, 2, replace=False).tolist())
+                    mid = 0.5 * (P[a1] + P[a2])
+                    u = P[a2] - P[a1]
+                    u = u / np.linalg.norm(u)
+                    w = np.cross(u, rng.normal(size=3))
+                    Q[0] = mid + 0.3 * w / np.linalg.norm(w) + u * float(rng.choice([2e-7, 6e-7, 1.5e-6, 1e-5]))
+                    s = float(rng.choice([0.5, 1.5, 0.37]))
             try:
                 bad = numeric_law(n, edges, m, P.tolist(), Q.tolist(), s)
             except Exception as e:
